@@ -46,6 +46,10 @@ PROP = {
         "remove spaces only (since repo 225e08d), NULL in gives NULL out (since repo 2f58b65); CONCAT(), COALESCE, NULLIF and the "
         "numeric functions are outside the modelled grammar",
         "SUM/AVG return DOUBLE in the engine: compared as exact integers / correctly rounded quotients, for |sum| < 2^53",
+        "DOUBLE columns are compare-only: their values (eighths of small integers, written f<IEEE-754 bits>) are stored, compared with each "
+        "other and with decimal literals, sorted, grouped, counted, MIN/MAXed and shown; no arithmetic, SUM or AVG over them and no "
+        "comparison with integer-typed expressions is generated (the spec keeps the order key of the bit pattern, it has no floating-point "
+        "semantics); a double holding an integer is shown as that integer",
         "integer literals and stored values are exactly representable as f64 (the lexer reads numbers as f64)",
         "what a failed INSERT/UPDATE/DELETE leaves behind is C03: statements after a failed DML statement of a case are not compared",
         "errors reach the public API as text (TaskError::TaskFailed(String)); their class is read from the prefixes produced by the error enums' Display impls",
@@ -56,6 +60,7 @@ PROP = {
                "INSERT/UPDATE/DELETE (select_pipeline and from_join_is_joinPure tie the evaluator to the operators); the agreement "
                "of the engine with the evaluator is tested, not proved.",
     "trusted": ["SQL printer (minimal parentheses), result canonicaliser and ORDER BY sortedness check of the Rust harness",
+                "bit pattern <-> order key conversion of DOUBLE values in the Lean driver (integer arithmetic on the bit pattern)",
                 "Lean `Float` division only for printing non-integral AVG results (no theorem mentions it)"],
 }
 
